@@ -184,7 +184,9 @@ def run_task(task):
                     inputs.write_table(rows, in_file)
                 crow, _assign = inputs.make_clusters(rng, rows, cfg["n"], outlier_prob_col=[0.0, 0.05, 0.5, 1e-4]
                                                      if cfg["loss_mode"] == "user" else None,
-                                                     prev_col=cfg["prevalence_column"])
+                                                     prev_col=cfg["prevalence_column"],
+                                                     per_mutation=cfg["loss_mode"] == "none" and idx % 3 == 2,
+                                                     shuffle=idx % 2 == 1)
                 cluster_file = os.path.join(tmpdir, "cl_%d.tsv" % idx)
                 inputs.write_table(crow, cluster_file)
             out_file = os.path.join(tmpdir, "out_%d.pkl.gz" % idx)
